@@ -2,6 +2,8 @@
 
 from __future__ import annotations
 
+import math
+
 import numpy as np
 from hypothesis import strategies as st
 
@@ -93,13 +95,15 @@ def case(draw):
                 if c == d:
                     d = c + 1
                 um, vm = (a + b) / 2, (c + d) / 2
-                shape = draw(st.sampled_from(["rect", "tri", "L", "diamond"]))
+                shape = draw(st.sampled_from(["rect", "tri", "L", "diamond", "bowtie"]))
                 if shape == "rect":
                     r = [[a, c], [b, c], [b, d], [a, d]]
                 elif shape == "tri":
                     r = [[a, c], [b, c], [a, d]]
                 elif shape == "L":
                     r = [[a, c], [b, c], [b, vm], [um, vm], [um, d], [a, d]]
+                elif shape == "bowtie":
+                    r = [[a, c], [b, d], [b, c], [a, d]]  # a self-crossing outline: both lobes belong to the geometry
                 else:
                     r = [[um, c], [b, vm], [um, d], [a, vm]]
                 return [[[T(u), F(v)] for u, v in r]]
@@ -200,9 +204,42 @@ def mapped_polys(g, tc, fc, variant):
             continue
         poly = sg.Polygon(ring)
         if not poly.is_valid:
-            return None
+            # self-intersecting image (a bow-tie outline, or one made so by the snapping): judged by crossing / winding numbers
+            out.append(_RingRegion(ring))
+            continue
         out.append(poly)
     return out
+
+
+class _RingRegion:
+    """A possibly self-intersecting ring.  A point is inside when the even-odd rule and the non-zero winding rule agree that it is
+    (both lobes of a figure-eight); where the two rules disagree (doubly wound loops) the point is left undecided."""
+
+    is_empty = False
+    area = 1.0
+
+    def __init__(self, ring):
+        self.ring = [tuple(map(float, q)) for q in ring]
+        if self.ring[0] != self.ring[-1]:
+            self.ring.append(self.ring[0])
+
+    def classify(self, x, y):
+        """'in', 'out', 'border' or 'undecided' for the point (x, y)"""
+        wn, crossings, dmin = 0, 0, float("inf")
+        for (x0, y0), (x1, y1) in zip(self.ring, self.ring[1:]):
+            dx, dy = x1 - x0, y1 - y0
+            L2 = dx * dx + dy * dy
+            t = 0.0 if L2 == 0 else max(0.0, min(1.0, ((x - x0) * dx + (y - y0) * dy) / L2))
+            dmin = min(dmin, math.hypot(x - (x0 + t * dx), y - (y0 + t * dy)))
+            if (y0 <= y) != (y1 <= y):
+                xi = x0 + (y - y0) * dx / dy
+                if xi > x:
+                    crossings += 1
+                    wn += 1 if y1 > y0 else -1
+        if dmin < 1e-9:
+            return "border"
+        eo, nz = crossings % 2 == 1, wn != 0
+        return "undecided" if eo != nz else ("in" if eo else "out")
 
 
 def reference_raster(geom_specs, per_geom, tc, fc, fill):
@@ -226,6 +263,14 @@ def reference_raster(geom_specs, per_geom, tc, fc, fill):
                     continue
                 for i in range(nt):
                     for j in range(nf):
+                        if isinstance(poly, _RingRegion):
+                            cl = poly.classify(i + 0.5, j + 0.5)
+                            if cl in ("border", "undecided"):
+                                border[i, j] = True
+                            elif cl == "in":
+                                e[i, j] = v
+                                border[i, j] = False
+                            continue
                         c = shapely.Point(i + 0.5, j + 0.5)
                         if poly.boundary.distance(c) < 1e-9:
                             border[i, j] = True
@@ -307,6 +352,26 @@ def check(spec, ctx):
     if not np.array_equal(res2, got):
         ctx.fail("result depends on the template contents", spec, None, None, kind="contents")
 
+    # the same axes reached by decimating a finer template built with the library's own range helpers: xarray keeps the
+    # coordinate attributes (the 'step' of the fine axis is now stale) - the template's COORDINATES are what counts
+    try:
+        import xarray as xr
+        from soundevent import arrays
+
+        tdim = arrays.create_time_range(start_time=spec["t0"], end_time=spec["t0"] + nt * spec["dt"], step=spec["dt"] / 2)
+        fdim = arrays.create_frequency_range(low_freq=spec["f0"], high_freq=spec["f0"] + nf * spec["df"], step=spec["df"] / 2)
+        fine = xr.DataArray(np.zeros((tdim.size, fdim.size)), dims=("time", "frequency"), coords={"time": tdim, "frequency": fdim})
+        dec = fine.isel(time=slice(None, None, 2), frequency=slice(None, None, 2))
+    except Exception:
+        dec = None
+    if dec is not None and np.array_equal(dec.coords["time"].values, tc) and np.array_equal(dec.coords["frequency"].values, fc):
+        ctx.label("decimated_template")
+        if spec["order"] == "ft":
+            dec = dec.transpose("frequency", "time")
+        res_d = rasterize(geoms, dec, **kw).transpose("time", "frequency").values
+        if not np.array_equal(res_d, got):
+            ctx.fail("a template with the same coordinates obtained by decimating a finer one (stale 'step' attribute) is rasterised differently", spec, res_d.tolist(), got.tolist(), kind="stale_step_attr")
+
     # all_touched only ever adds cells
     kw_f = dict(kw, all_touched=False)
     kw_t = dict(kw, all_touched=True)
@@ -343,6 +408,26 @@ def check(spec, ctx):
                 ew, dw = ref_w
                 if rw.shape != ew.shape or np.any(dw & (rw != ew)):
                     ctx.fail(f"window time[{lo}:{hi}] of a template that was already rasterised: cells differ from the cell-centre rule on the window's own axes", spec, rw.tolist(), ew.tolist(), kind="stale_template")
+
+    # geometries derived from the ones that were just rasterised (copies with other coordinates, the same objects after their
+    # coordinates were re-assigned) are rasterised by their CURRENT coordinates, like freshly built ones
+    from vf.oracles.shp import shift_spec_time
+
+    if geoms:
+        try:
+            fresh_geoms = [data.geometry_validate({"type": g.type, "coordinates": shift_spec_time(g.type, g.coordinates, spec["dt"])}, mode="dict") for g in geoms]
+        except ValueError:
+            return
+        fresh = rasterize(fresh_geoms, arr, **kw).transpose("time", "frequency").values
+        derived = [g.model_copy(update={"coordinates": f.coordinates}, deep=bool(i % 2)) for i, (g, f) in enumerate(zip(geoms, fresh_geoms))]
+        got_d = rasterize(derived, arr, **kw).transpose("time", "frequency").values
+        if not np.array_equal(got_d, fresh, equal_nan=True):
+            ctx.fail("copies derived (model_copy(update=coordinates)) from rasterised geometries give other cells than freshly built geometries with the same coordinates", spec, got_d.tolist(), fresh.tolist(), kind="stale_derived")
+        for g, f in zip(geoms, fresh_geoms):
+            g.coordinates = f.coordinates
+        got_a = rasterize(geoms, arr, **kw).transpose("time", "frequency").values
+        if not np.array_equal(got_a, fresh, equal_nan=True):
+            ctx.fail("geometries whose coordinates were re-assigned after a first rasterisation give other cells than freshly built ones", spec, got_a.tolist(), fresh.tolist(), kind="stale_after_assignment")
 
 
 SUBS = [
